@@ -1,6 +1,6 @@
 SPECIFICATION Spec
 CONSTANTS
-  MaxLen = 6
+  MaxLen = 7
   MaxDepth = 3
   Names = {"a", "b"}
 INVARIANTS StackOK Agree ForwardOutward EmitCase
